@@ -1,17 +1,49 @@
 """Per-property configuration of the checks (streams, proof module, generated facts, notes)."""
 
 COMMON_ASSUME = [
-    "the hand-written Lean model is tied to the code only by the correspondence streams (differential execution bounded by generator quality)",
+    "the hand-written Lean model is tied to the code only by the correspondence streams (differential execution bounded by generator quality) and, where listed, by facts regenerated from the source on every run",
     "compiler (gcc -O2) and the project's per-file ISA flags are part of the modelled object",
 ]
 
 PROPS = {
+    "C05": dict(
+        title="Base-2^k normalization yields the unique balanced digit expansion",
+        module="SpqProofs.Properties.C05",
+        streams=dict(quick=[("kz_norm", "plain"), ("vz_norm", "plain")], thorough=[("kz_norm", "plain"), ("vz_norm", "plain"), ("vz_box", "plain")]),
+        proved="digit/carry = balanced residue / exact quotient (all k in [1,62], |x|,|cin| <= 2^62, no wrap); per-coefficient chain = balancedDigits (existence, value identity, uniqueness); heap-level normalize_spec for all nn, k, limb counts incl. 0, strides, in place or disjoint, frame, bounds flag; big and range variants",
+        not_proved="nothing of the statement is left unproved at model level; the 8 argument shapes of znx_normalize are one model function (the shapes differ only in what is stored) — tied by the kz_norm stream over all shapes and aliasing patterns",
+        level_text="Lean 4 theorems: balanced base-2^k expansion (value, range, uniqueness) for every k, limb count and stride; model tied to the code by exhaustive small boxes and boundary carry chains, bit-exact",
+        design_ref="DESIGN.md §5 C05",
+    ),
     "C08": dict(
+        title="vec_znx size/stride semantics",
         module="SpqProofs.Properties.C08",
-        variants={"plain": None},
         streams=dict(quick=[("vz_box", "plain")], thorough=[("vz_box", "plain")]),
-        proved="value + frame + bounds-flag theorems for every vec_znx size/stride operation, for all nn, limb counts incl. 0, strides >= nn, offsets, heap contents, aliased or disjoint sources",
-        not_proved="AVX lane chunking is modelled as the same per-limb function (tied by the correspondence on avx variants)",
-        assumptions=COMMON_ASSUME,
+        proved="value + frame + bounds-flag theorems for zero/copy/negate/add/sub/rotate/automorphism and the big wrappers, for all nn, limb counts incl. 0, strides >= nn, offsets, heap contents, aliased or disjoint sources; int64 zero-extension corollaries",
+        not_proved="AVX lane chunking is modelled as the same per-limb function (tied by the correspondence on the avx variants and the generic/AVX dispatch masks)",
+        level_text="Lean 4 theorems over the heap model of vec_znx: value, frame and bounds for all sizes (incl. 0), strides, dimensions and contents; model tied to /repo by bit-exact whole-arena differential runs (canary padding, all size orderings, both module types and dispatch masks)",
+        design_ref="DESIGN.md §5 C08",
+    ),
+    "C13": dict(
+        title="Supported in-place calls give the same result as out-of-place calls",
+        module="SpqProofs.Properties.C13",
+        streams=dict(quick=[("vz_box", "plain"), ("kz_probe", "plain"), ("vz_norm", "plain")], thorough=[("vz_box", "plain"), ("kz_probe", "plain"), ("vz_norm", "plain")]),
+        proved="call-independence theorems: an aliased call (res==a or res==b, same stride) and a call with separate buffers on the same source data give identical output cells, for add/sub/copy/negate/rotate/automorphism and the big variants, all limb counts (res_size != aliased size included)",
+        not_proved="the inverse DFT in place and pointwise products with r==a are float kernels: covered by the module-level streams (bit-exact), theorem staged with the FFT model",
+        level_text="Lean 4 theorems: aliased call = separate-buffer call on identical data for every shape; in-place kernels tied to the real code by the exhaustive probe stream",
+        design_ref="DESIGN.md §5 C13",
+    ),
+    "C18": dict(
+        title="Read-only operands are never modified",
+        module="SpqProofs.Properties.C18",
+        streams=dict(quick=[("vz_box", "plain"), ("vz_norm", "plain")], thorough=[("vz_box", "plain"), ("vz_norm", "plain")]),
+        proved="unconditional frame theorems: only the nn cells of the first rsz output limbs can change (any offsets, strides, overlap); hence every source cell not aliased with the output, including stride padding, is unchanged",
+        not_proved="module tables / prepared objects of the DFT, SVP and VMP paths are covered by the module-level streams (byte snapshots), not yet by theorems",
+        level_text="Lean 4 frame theorems for every vec_znx operation with no hypotheses on offsets/strides; whole-arena byte comparison against the real code",
+        design_ref="DESIGN.md §5 C18",
     ),
 }
+
+for _p in PROPS.values():
+    _p.setdefault("variants", {"plain": None})
+    _p.setdefault("assumptions", COMMON_ASSUME)
